@@ -16,7 +16,7 @@ TECHNIQUE = ("model-based stateful testing (Hypothesis-generated operation histo
              "stack; every datagram at the sender seam (discovery probes included) is decoded independently and compared "
              "with the model's top-of-stack settings")
 RULE = ("case = history of 3..30 steps from {configure(**kw), enter reconfigure(**kw), exit (normal | exception), request "
-        "(get | set | walk), unknown setting (permanent | temporary)} with kw drawn from timeout, retries, credentials (V1 / V2C "
+        "(get | set | walk), unknown setting (permanent | temporary, alone or together with valid settings incl. credentials of another family)} with kw drawn from timeout, retries, credentials (V1 / V2C "
         "communities, three SNMPv3 users) and context, nesting depth <= 4; invariant after every step: client.config equals "
         "the model top; per request: timeout / retries / version / community-or-user / context of every datagram equal the "
         "model top and the request succeeds; non-trivial = nesting depth >= 2, an exceptional exit, or a credential-family "
@@ -220,11 +220,17 @@ def run_case(case) -> Result:
             classes.add("bad_setting")
             before = client.config
             raised = False
+            # the unknown setting may come together with valid ones (step[3]); the call is refused as a whole
+            extra = kwargs(step[3]) if len(step) > 3 and step[3] else {}
+            if extra:
+                classes.add("bad_setting_with_valid_ones")
+                if "credentials" in extra and CREDS[step[3]["creds"]]["v"] != model[-1]["creds"]["v"]:
+                    classes.add("bad_setting_with_family_switch")
             try:
                 if step[1] == "permanent":
-                    client.configure(**{step[2]: 1})
+                    client.configure(**dict(extra, **{step[2]: 1}))
                 else:
-                    with client.reconfigure(**{step[2]: 1}):
+                    with client.reconfigure(**dict(extra, **{step[2]: 1})):
                         pass
             except Exception:  # noqa
                 raised = True
@@ -232,6 +238,11 @@ def run_case(case) -> Result:
                 return result("%s: the unknown setting %r was accepted" % (where, step[2]))
             if client.config != before:
                 return result("%s: refusing the unknown setting changed the configuration" % where)
+            if extra:
+                # "without changing anything": the next request still speaks as before
+                msg = do_request("get", where + " then get")
+                if msg:
+                    return result("after the refused call: " + msg)
         else:
             raise ValueError(kind)
         if "family_switch" in classes:
@@ -259,6 +270,8 @@ STEP = st.one_of(
     st.tuples(st.just("request"), st.sampled_from(["get", "get", "set", "walk"])).map(list),
     st.tuples(st.just("bad"), st.sampled_from(["permanent", "temporary"]),
               st.sampled_from(["timeout_s", "retry", "community", "foo", "Timeout"])).map(list),
+    st.tuples(st.just("bad"), st.sampled_from(["permanent", "temporary"]),
+              st.sampled_from(["timeout_s", "retry", "community", "foo", "Timeout", "timeuot"]), KW).map(list),
 )
 
 
